@@ -8,3 +8,9 @@ import SF.Props.C16
 #print axioms SF.C16.vst_flat
 #print axioms SF.C16.vsct_flat
 #print axioms SF.C16.ema_exact
+#print axioms SF.C16.min_max_flat
+#print axioms SF.C16.hln_flat
+#print axioms SF.C16.cumulative_flat
+#print axioms SF.C16.kendallNum_flat
+#print axioms SF.C16.net_flat
+#print axioms SF.C16.Real.cti_flat
